@@ -6,7 +6,7 @@ import copy
 
 import numpy as np
 
-from .. import obs, ref
+from .. import calib, obs, ref
 
 ID = "C07"
 LEVEL = "exploration"
@@ -22,19 +22,30 @@ ASSUMPTIONS = [
     "real dask get_async / xarray apply_ufunc / pyxel code run; the thread pool, the wait-for-a-task primitive and the process-wide numpy RNG entry points are simulator seams",
     "process pools and distributed schedulers are represented by a stub (pickled arguments/results, private generator state per task, atomic tasks)",
     "code inside numpy / numba is atomic to the scheduler",
-    "calibration worker-count / island-order invariance is decided in the C10/C11 engine runs (same scheduler), see DESIGN.md",
+    "calibration variant: the same seeded calibration is run under two different schedules / worker counts (island creation jobs, candidate evaluations and adopted pygmo threads under the scheduler); champions and best individuals must be bit-identical (unconnected topology only)",
 ]
 COMPONENTS = {"real": ["pyxel", "dask.local.get_async", "xarray", "numpy"], "stub": ["thread pool (SimPool)", "process pool semantics", "queue wait"]}
 BUDGET = {"quick": {"n": 96, "wall": 100, "determinism": 4}, "thorough": {"n": 2400, "wall": 1500, "determinism": 12}}
-REQUIRED_REACH = ["contested_runs", "preempted_runs", "procs_runs", "rng_overlap_runs", "reordered_completion"]
+REQUIRED_REACH = ["variant:calibration", "island_creation_order_varied", "contested_runs", "preempted_runs", "procs_runs", "rng_overlap_runs", "reordered_completion"]
 
 
 def generate(rng, tier):
+    if rng.random() < 0.12:
+        # calibration: outcome for fixed seeds must not depend on worker count, schedule or island creation order
+        scn = calib.gen_calibration(rng, tier, fit_ranges="full", multi_readout_p=0.0, weights_p=0.0, n_targets=(1, 2), islands=(2, 2, 3))
+        scn["variant"] = "calibration"
+        scn["sched_b"] = {"policy": rng.choice(["fifo", "lifo", "random", "preempt", "pct"]), "workers": rng.choice([1, 2, 3, 8, 16]), "preempt_p": 0.2, "pct_d": 2, "sim_seed": rng.randrange(2**31)}
+        return scn
     scn = obs.gen_observation(rng, tier)
     return scn
 
 
 def shrink(scn):
+    if scn.get("variant") == "calibration":
+        from . import c10
+
+        yield from c10.shrink(scn)
+        return
     yield from obs.shrink_observation(scn)
     if scn["sched"].get("procs"):
         c = copy.deepcopy(scn)
@@ -42,7 +53,48 @@ def shrink(scn):
         yield c
 
 
+def execute_calibration(scn, forced=None):
+    stats = {"variant:calibration": 1}
+    viol = []
+    a = calib.run_calibration(scn, forced=forced)
+    sb = copy.deepcopy(scn)
+    sb["sched"] = scn["sched_b"]
+    b = calib.run_calibration(sb)
+    sim = a.get("sim") or {}
+    if a["exc"] is not None or b["exc"] is not None:
+        exc = a["exc"] or b["exc"]
+        if type(exc).__name__ == "SimDeadlock":
+            viol.append({"clause": "C07.liveness", "signature": "C07.liveness@calibration", "detail": str(exc)})
+        else:
+            viol.append({"clause": "C07.same-outcome", "signature": f"C07.calibration-raises:{type(exc).__name__}", "detail": {"exc": repr(exc)[:400], "tb": (a.get("tb") or b.get("tb") or "")[-800:]}})
+    else:
+        da, db = calib.result_digest(a["tree"]), calib.result_digest(b["tree"])
+        if da != db:
+            ca, cb = a["tree"]["/champion/fitness"].values, b["tree"]["/champion/fitness"].values
+            viol.append({"clause": "C07.calibration-invariant", "signature": f"C07.calibration-outcome-depends-on-schedule@islands={scn['mode']['num_islands']}", "detail": {"sched_a": scn["sched"], "sched_b": scn["sched_b"], "champion_fitness_a": ca.tolist(), "champion_fitness_b": cb.tolist()}})
+        if (a["sim"] or {}).get("contested"):
+            stats["contested_runs"] = 1
+        order_a = [e for e in (a["sim"] or {}).get("decisions", []) if e.startswith("pool:")]
+        order_b = [e for e in (b["sim"] or {}).get("decisions", []) if e.startswith("pool:")]
+        if order_a != order_b:
+            stats["island_creation_order_varied"] = 1
+    import hashlib
+
+    return {
+        "violations": viol,
+        "stats": stats,
+        "nontrivial": bool(sim.get("contested")),
+        "key": hashlib.sha256(repr((scn["mode"]["algorithm"], scn["mode"]["num_islands"], scn["sched"], scn["sched_b"])).encode()).hexdigest()[:16],
+        "digest": (sim.get("digest") or "") + ":" + calib.result_digest(a["tree"]) + ":" + ((b.get("sim") or {}).get("digest") or ""),
+        "sim_time": float(sim.get("now") or 0.0),
+        "decisions": sim.get("decisions") or [],
+        "sample": {"variant": "calibration", "islands": scn["mode"]["num_islands"], "sched_a": scn["sched"], "sched_b": scn["sched_b"]},
+    }
+
+
 def execute(scn, forced=None):
+    if scn.get("variant") == "calibration":
+        return execute_calibration(scn, forced)
     stats: dict[str, int] = {}
     viol: list[dict] = []
     seq = obs.run_observation(scn, with_dask=False)
